@@ -515,7 +515,8 @@ def owned_walk(root):
 
 @op("clone")
 def _(w, e):
-    c = need(w, e["on"]).clone()
+    src = pinref(w, e["pin"]) if "pin" in e else need(w, e["on"])   # (an outer pin is named through its instance)
+    c = src.clone()
     return owned_walk(c)
 
 
